@@ -176,6 +176,62 @@ fn twins(ctx: &mut Ctx) {
                 }
             }
             }
+            // growth after optimisation: the optimised blocker and a never-optimised twin receive
+            // the same near-twin rules through add_filter and must accept/refuse and answer alike
+            let (nf2, _) = parse_filters(&rules, debug, opts);
+            let mut twin = Blocker::new(nf2, &BlockerOptions { enable_optimizations: false });
+            let mut grown = rules.clone();
+            for _ in 0..1 + r.below(3) {
+                let base = r.pick(&rules).clone();
+                let line = match gen::near_twin(&mut r, &base, &Profile::ALL) {
+                    Some(l) if !l.contains("badfilter") => l,
+                    _ => continue,
+                };
+                let (mut a1, _) = parse_filters([&line], debug, opts);
+                let (mut a2, _) = parse_filters([&line], debug, opts);
+                if let (Some(f1), Some(f2)) = (a1.pop(), a2.pop()) {
+                    let r1 = blocker.add_filter(f1).is_ok();
+                    let r2 = twin.add_filter(f2).is_ok();
+                    // (the reverse is benign: an optimised list cannot see that a rule is already
+                    // present as a member of a fused rule, and a duplicate changes no verdict)
+                    if !r1 && r2 {
+                        out.push(Ev::Diff {
+                            kind: "optimised-blocker-refuses-a-rule-the-unoptimised-twin-accepts-as-new",
+                            detail: json!({"rules": rules, "added": line, "optimised_blocker_accepts": r1, "unoptimised_blocker_accepts": r2}),
+                        });
+                    }
+                    if r2 {
+                        grown.push(line);
+                    }
+                }
+            }
+            if grown.len() > rules.len() {
+                for tags in tagsets.iter() {
+                    blocker.use_tags(tags);
+                    twin.use_tags(tags);
+                    let tagset3: HashSet<String> = tags.iter().map(|s| s.to_string()).collect();
+                    let extra: Vec<gen::Req> = (0..3).map(|_| gen_request(&mut r, &grown[rules.len()..])).collect();
+                    for q in reqs.iter().chain(extra.iter()) {
+                        let rq = match Request::new(&q.url, &q.source, q.rtype) {
+                            Ok(rq) => rq,
+                            Err(_) => continue,
+                        };
+                        let x = blocker_answer(&blocker, &storage, &rq);
+                        let y = blocker_answer(&twin, &storage, &rq);
+                        if !x.same_verdict(&y) && differs_only_by_redirect_tie(&x, &y, &grown, &tagset3, &rq, &q.url, &resdefs) {
+                            out.push(Ev::Tie);
+                        } else if !x.same_verdict(&y) {
+                            out.push(Ev::Diff {
+                                kind: "grown-after-optimize",
+                                detail: json!({"rules": rules, "added_through_add_filter": grown[rules.len()..].to_vec(), "tags": tags, "url": q.url, "source": q.source, "type": q.rtype,
+                                    "optimised_then_grown": x.to_json(), "never_optimised_twin": y.to_json()}),
+                            });
+                        } else {
+                            out.push(Ev::Ok { nt: false, h: 0, sample: json!(null), by_fused: false });
+                        }
+                    }
+                }
+            }
             (out, fused)
         });
         match outcome {
